@@ -344,6 +344,11 @@ pub fn rand_opts(r: &mut Rng, allow_pw: bool) -> Opts {
 }
 
 fn rand_utf8_name(r: &mut Rng) -> Vec<u8> {
+    if r.chance(1, 4) {
+        // non-ASCII names: the UTF-8 flag must be set, also together with the encryption bit
+        let pool = ["caf\u{e9}.txt", "\u{65e5}\u{672c}\u{8a9e}/\u{30d5}\u{30a1}\u{30a4}\u{30eb}", "na\u{ef}ve\\path", "\u{1f600}", "a\u{80}b", "dir\u{e9}/"];
+        return pool[r.below(pool.len() as u64) as usize].as_bytes().to_vec();
+    }
     let n = rand_name(r);
     String::from_utf8_lossy(&n).into_owned().into_bytes()
 }
